@@ -356,6 +356,17 @@ def _provenance_paths(fn, classify, compound, inliner, unroll, s_src, p_val):
             pc = [U(c_.args[0]) for c_ in mcmc.posterior_calls(node.value) if c_.args]
             for nm in names:
                 ev.append(("DEF", node.lineno, nm + "|" + ",".join(pc)))
+        # a call made for its effect on an array (`x.round(10, out=x)`, `x.sort()`, `clip(x, .., out=x)`): the point changes
+        if isinstance(node, ast.Expr) and isinstance(node.value, ast.Call):
+            cl = node.value
+            outs = [x.id for k_ in cl.keywords if k_.arg == "out" for x in ast.walk(k_.value) if isinstance(x, ast.Name)]
+            if isinstance(cl.func, ast.Attribute) and cl.func.attr in ("sort", "fill", "resize", "put", "partition", "itemset", "clip", "round") \
+                    and isinstance(cl.func.value, ast.Name) and (cl.func.attr not in ("clip", "round") or outs):
+                outs.append(cl.func.value.id)
+            if U(cl.func).split(".")[-1] in ("copyto", "put", "place", "putmask", "fill_diagonal", "shuffle") and cl.args and isinstance(cl.args[0], ast.Name):
+                outs.append(cl.args[0].id)
+            for nm in set(outs):
+                ev.append(("DEF", node.lineno, nm + "|"))
         return ev
     en = Enumerator(classify2, compound, inliner, unroll=unroll, depth=2)
     for ev, s in en.function(fn):
